@@ -22,17 +22,20 @@ import (
 // stateless DFS over choice vectors with an (iterated) preemption bound.
 
 type schedStats struct {
-	Executions   int      `json:"executions"`
-	Points       int      `json:"points"`
-	MaxPoints    int      `json:"max_points"`
-	Outcomes     []string `json:"outcomes"` // distinct observations
-	Violations   []string `json:"violations,omitempty"`
-	Deadlocks    int      `json:"deadlocks"`
-	BoundDone    int      `json:"bound_done"` // -1 = unbounded completed
-	Capped       bool     `json:"capped"`
-	Internal     string   `json:"internal,omitempty"`
-	Preemptions  int      `json:"max_preemptions_seen"`
-	PointLabels  []string `json:"point_labels,omitempty"`
+	Executions  int      `json:"executions"`
+	Points      int      `json:"points"`
+	MaxPoints   int      `json:"max_points"`
+	Outcomes    []string `json:"outcomes"` // distinct observations
+	Violations  []string `json:"violations,omitempty"`
+	Deadlocks   int      `json:"deadlocks"`
+	BoundDone   int      `json:"bound_done"` // -1 = unbounded completed
+	Capped      bool     `json:"capped"`
+	Internal    string   `json:"internal,omitempty"`
+	Preemptions int      `json:"max_preemptions_seen"`
+	PointLabels []string `json:"point_labels,omitempty"`
+	// distinct orders in which the harness callbacks / calls were observed over all schedules:
+	// >1 means the interleavings really differed although the outcome must not
+	DistinctTraces int `json:"distinct_traces"`
 }
 
 // exploreSchedules runs the DFS. run executes one schedule and returns the
@@ -223,6 +226,8 @@ func schedBuildHandler(raw json.RawMessage) (any, error) {
 	want := obsOfBundle(&ref)
 	st := &schedStats{BoundDone: arg.Bound}
 	var first string
+	traces := map[string]bool{}
+	defer func() { st.DistinctTraces = len(traces) }()
 	run := func(choices []int) (vsync.Result, string, string) {
 		base := core.NewArena()
 		defer core.RemoveArena(base)
@@ -277,6 +282,7 @@ func schedBuildHandler(raw json.RawMessage) (any, error) {
 		for _, c := range log.Calls {
 			counts[c]++
 		}
+		traces[strings.Join(log.Calls, "|")] = true
 		viol := ""
 		for c, n := range counts {
 			if strings.HasPrefix(c, "fetch ") && n != 1 {
